@@ -1,4 +1,4 @@
 From Coq Require Import Extraction ExtrOcamlBasic.
-From QV Require Import Model.NameWire Model.Reader Model.RdataLite Spec.NameWireS Spec.NameRepr Spec.ReaderS.
+From QV Require Import Model.NameWire Model.Reader Model.RdataLite Model.RdataFull Spec.NameWireS Spec.NameRepr Spec.ReaderS.
 Extraction Language OCaml.
-Separate Extraction reader_new step rd_lite label_at spec_decode_name name_of sbe16 sbe32 spec_ttl.
+Separate Extraction reader_new step rd_lite rd_full label_at spec_decode_name name_of sbe16 sbe32 spec_ttl.
